@@ -1093,7 +1093,7 @@ pub fn c03(tier: Tier) -> i32 {
     // worlds with symbolic links (read as files, the default): a link to a directory that a
     // negation discards as a tree is a leaf, and nothing but the link itself may disappear
     let plain_worlds = worlds.len();
-    let link_cap = tier.pick(2, 4);
+    let link_cap = tier.pick(2, 3);
     worlds.extend(crate::props_links::link_worlds(Tier::Quick).into_iter().filter(|w| w.entries() <= link_cap && w.describe().contains("->")));
     rep.add("link_worlds", (worlds.len() - plain_worlds) as u64);
     let bases = vec![
